@@ -8,8 +8,8 @@ META = dict(
               "model-checked by TLC over the whole bounded input space; TLC case table replayed into the real "
               "cmdline.split / Splitter; recorded tokens judged by the same TLA+ laws",
     level_text="Exhaustive over the alphabet {a, space, \", ', \\}: every argument list up to the tier's bounds is "
-               "quoted by the spec's rule and every string up to the tier's length is split, with single quotes "
-               "enabled and disabled. TLC proves split(join(quote(args))) = args and the no-loss law on the "
+               "written both by the double-quote rule and by the minimal rule (bare, only quote characters escaped) and every string up to the tier's length is split, with single quotes "
+               "enabled and disabled. TLC proves split(join(quote(args))) = args for both rules and the no-loss law on the "
                "transcription, every case is executed on the real splitter, and TLC evaluates the same laws on the "
                "recorded tokens. The splitter is a small finite-state transducer whose behaviour depends only on the "
                "character class, so small-scope exhaustion is the right level.",
